@@ -12,9 +12,6 @@
  * model bodies below: an exact min-priority queue over a universe of TCAP timer objects (each timer is queued at most
  * once, so "queued?" + "key" per timer is an exact representation); ties are broken nondeterministically.            */
 #include "gen.h"
-#ifdef H_solve_max_date
-#define A_NS3_WITHIN_BUDGET 1
-#endif
 
 #define FIN(x) __CPROVER_isfinited(x)
 #define ISNAN(x) __CPROVER_isnand(x)
@@ -218,14 +215,7 @@ _Bool Model__next_occurring_event_is_idempotent(struct Model* self) __CPROVER_re
     __CPROVER_ensures(__CPROVER_return_value == IDEM_OF(self));
 /* any double at all (NaN, infinities, negative = "nothing to do") */
 double Model__next_occurring_event(struct Model* self, double now) __CPROVER_requires(IS_MODEL(self)) __CPROVER_assigns()
-#ifdef A_NS3_WITHIN_BUDGET
-    /* assumption used ONLY for the max_date clause: a non-idempotent model (ns-3) that is told to run for at most
-       `now` seconds reports at most that much */
-    __CPROVER_ensures(IDEM_OF(self) || !(__CPROVER_return_value >= 0.0) || __CPROVER_return_value <= now)
-#else
-    __CPROVER_ensures(1)
-#endif
-    ;
+    __CPROVER_ensures(1);
 /* -1 when there is no event, else the date of the first one: assumed not NaN */
 double FutureEvtSet__next_date(struct FutureEvtSet* self) __CPROVER_requires(self == &future_evt_set)
     __CPROVER_assigns(g_pending) __CPROVER_ensures(!ISNAN(__CPROVER_return_value));
@@ -253,30 +243,23 @@ void signal_void_double___operator_call(struct signal_void_double_* self, double
     __CPROVER_ensures(g_sig_calls == __CPROVER_old(g_sig_calls) + 1 && EQ(g_sig_delta, delta));
 
 /* loop contracts of solve */
-#ifdef A_NS3_WITHIN_BUDGET
-#define MAXINV (max_date == -1.0 || (max_date >= now_ && now_ + time_delta <= max_date))
-#define MAXINV0 (MAXINV && (max_date == -1.0 || time_delta >= 0.0))
-#else
-#define MAXINV 1
-#define MAXINV0 1
-#endif
 #define SOLVE_COMMON (vf_exc == 0 && EQ(now_, g_now0) && !ISNAN(time_delta))
 #define EVT_FRAME time_delta, value, resource, now_, g_pending, g_pop_date, g_applied, g_apply_ok
 #define VF_LOOP_EngineImpl__solve_0                                                                                    \
   __CPROVER_assigns(__i0, time_delta)                                                                                  \
-  __CPROVER_loop_invariant(__r0 == &g_eng.models_ && __i0 <= MN && SOLVE_COMMON && MAXINV0)                            \
+  __CPROVER_loop_invariant(__r0 == &g_eng.models_ && __i0 <= MN && SOLVE_COMMON)                            \
   __CPROVER_decreases(MN - __i0)
 /* no decreases clause: the source itself warns that this loop may not terminate (periodicity-0 profiles) */
 #define VF_LOOP_EngineImpl__solve_1                                                                                    \
   __CPROVER_assigns(EVT_FRAME)                                                                                         \
-  __CPROVER_loop_invariant(SOLVE_COMMON && g_apply_ok && MAXINV && (resource == NULL || resource == &g_res))
+  __CPROVER_loop_invariant(SOLVE_COMMON && g_apply_ok && (resource == NULL || resource == &g_res))
 #define VF_LOOP_EngineImpl__solve_2                                                                                    \
   __CPROVER_assigns(__i2, time_delta)                                                                                  \
-  __CPROVER_loop_invariant(__r2 == &g_eng.models_ && __i2 <= MN && SOLVE_COMMON && MAXINV)                             \
+  __CPROVER_loop_invariant(__r2 == &g_eng.models_ && __i2 <= MN && SOLVE_COMMON)                             \
   __CPROVER_decreases(MN - __i2)
 #define VF_LOOP_EngineImpl__solve_3                                                                                    \
   __CPROVER_assigns(EVT_FRAME)                                                                                         \
-  __CPROVER_loop_invariant(SOLVE_COMMON && g_apply_ok && MAXINV && (resource == NULL || resource == &g_res))           \
+  __CPROVER_loop_invariant(SOLVE_COMMON && g_apply_ok && (resource == NULL || resource == &g_res))           \
   __CPROVER_decreases(g_pending)
 #define VF_LOOP_EngineImpl__solve_4                                                                                    \
   __CPROVER_assigns(__i4, g_upd_calls, g_upd_ok, g_upd_delta)                                                          \
@@ -297,7 +280,9 @@ double EngineImpl__solve(struct EngineImpl* self, double max_date)
     __CPROVER_ensures(vf_exc != 0 || RET != -1.0 || (EQ(now_, g_now0) && g_upd_calls == 0 && g_sig_calls == 0))
     /*@ no_next_event_leaves_the_clock_alone */
     __CPROVER_ensures(vf_exc != 0 || RET == -1.0 || RET >= 0.0) /*@ the_step_is_never_negative */
-    __CPROVER_ensures(vf_exc != 0 || RET == -1.0 || now_ == g_now0 + RET) /*@ clock_advances_by_exactly_the_returned_step */
+    __CPROVER_ensures(vf_exc != 0 || RET == -1.0 ||
+                      EQ(now_, (max_date != -1.0 && g_now0 + RET > max_date) ? max_date : g_now0 + RET))
+    /*@ clock_advances_by_the_returned_step_but_stops_at_the_requested_date */
     __CPROVER_ensures(now_ >= g_now0) /*@ clock_never_decreases */
     __CPROVER_ensures(g_apply_ok) /*@ profile_events_are_applied_with_the_clock_at_their_date */
     __CPROVER_ensures(vf_exc != 0 || RET == -1.0 ||
@@ -305,9 +290,7 @@ double EngineImpl__solve(struct EngineImpl* self, double max_date)
     /*@ every_model_is_told_the_new_date_and_the_step */
     __CPROVER_ensures(vf_exc != 0 || RET == -1.0 || (g_sig_calls == 1 && EQ(g_sig_delta, RET)))
     /*@ time_advance_signal_carries_the_step */
-#ifdef A_NS3_WITHIN_BUDGET
     __CPROVER_ensures(vf_exc != 0 || max_date == -1.0 || now_ <= max_date) /*@ clock_does_not_pass_the_requested_date */
-#endif
     ;
 
 #include "gen.c"
@@ -344,7 +327,7 @@ void harness(void)
   VF_CANARY_POINT;
 }
 #endif
-#if defined(H_solve) || defined(H_solve_max_date)
+#ifdef H_solve
 void harness(void)
 {
   g_eng.models_.d = g_mods;
@@ -352,6 +335,35 @@ void harness(void)
   g_mods[1]       = &g_m1;
   g_mods[2]       = &g_m2;
   EngineImpl__solve(&g_eng, nondet_double());
+  VF_CANARY_POINT;
+}
+#endif
+#ifdef H_lemma_timer_fires_at_its_date
+/* composition, through the contracts of Timer::set and Timer::execute_all: a timer set for a future date t is not run
+   while the clock is before t and is run, once, with the clock at t, when execute_all is called at clock == t
+   (whatever else is queued, whatever ran in between) */
+void harness(void)
+{
+  __CPROVER_assume(WF_Q && !QFULL && vf_exc == 0 && !ISNAN(g_clock) && g_fired[0] == 0 && g_fired[1] == 0 && g_fired[2] == 0);
+  double t = nondet_double();
+  __CPROVER_assume(!ISNAN(t) && t > g_clock);
+  gj = 0;
+  struct Task_void__ cb;
+  Timer__set(t, &cb);
+  int j = g_new_j;
+  gj    = j;
+  double c1 = nondet_double();
+  __CPROVER_assume(c1 >= g_clock && c1 < t);
+  g_clock = c1; /* time passes, but not up to t */
+  Timer__execute_all();
+  __CPROVER_assert(g_fired[j] == 0 && g_inq[j], "not run before its date"); /*@ a_timer_does_not_fire_before_its_date */
+  g_fired[0] = 0;
+  g_fired[1] = 0;
+  g_fired[2] = 0;
+  g_clock    = t; /* the clock reaches the date (EngineImpl::run hands Timer::next() to solve as max_date) */
+  Timer__execute_all();
+  _Bool at_t = g_fired[j] == 1 && g_fire_clock[j] == t && !g_inq[j];
+  __CPROVER_assert(at_t, "run once at its date"); /*@ a_timer_set_for_t_fires_once_with_the_clock_at_t */
   VF_CANARY_POINT;
 }
 #endif
